@@ -125,9 +125,8 @@ def _self_validate(ctx, prop):
                 seeds_ok += 1
     # behaviour-preserving refactorings (independent authors): this property's
     # check must stay silent on every one of them
-    from selftest.refactors import run_one as run_refac
-    rdirs = sorted(d for d in glob.glob(os.path.join(here, "refactors", "*"))
-                   if os.path.isfile(os.path.join(d, "patch.diff")))
+    from selftest.refactors import run_one as run_refac, corpus_dirs
+    rdirs = corpus_dirs()
     refac_ok = 0
     with ProcessPoolExecutor(max_workers=min(16, os.cpu_count() or 4)) as ex:
         for name, res, msg in ex.map(run_refac, [(d, [prop]) for d in rdirs]):
